@@ -43,6 +43,29 @@ theorem builder_injective (regs : List Reg) (b b' : Bytes) (items : List Bytes)
     (h : build regs b = .ok items) (h' : build regs b' = .ok items) : b = b' := by
   rw [(builder_sound regs b items h).1, (builder_sound regs b' items h').1]
 
+/-- `decode_next_with` hands the callback the head of the queue and leaves the tail, whatever the callback
+answers; in particular a refused item does not shift the ones after it. -/
+theorem decodeNext_hands_head {α} (it : Bytes) (rest : List Bytes) (f : Bytes → Res α) :
+    decodeNextWith (it :: rest) f = (match f it with | .ok a => .ok (a, queueAfter (it :: rest)) | .err => .err | .panic => .panic) := by
+  simp only [decodeNextWith, queueAfter, List.tail_cons]
+  cases f it <;> rfl
+
+theorem handed_eq_take {α} (items : List Bytes) (fs : List (Bytes → Res α)) :
+    handed items fs = items.take fs.length := by
+  induction items generalizing fs with
+  | nil => cases fs <;> simp [handed]
+  | cons it rest ih => cases fs with
+    | nil => simp [handed]
+    | cons f fs => simp [handed, ih]
+
+/-- one call per registered item: every item is handed to its own callback, in order -/
+theorem handed_all {α} (items : List Bytes) (fs : List (Bytes → Res α)) (h : fs.length = items.length) :
+    handed items fs = items := by
+  rw [handed_eq_take, h, List.take_length]
+
+example : handed [[1], [2, 3], []] [fun _ => (Res.err : Res Nat), fun _ => .ok 0, fun _ => .err] = [[1], [2, 3], []] := by
+  simp [handed]
+
 /-- lists of variable-size items: whatever is accepted is the offset-table encoding of the slices -/
 theorem list_sound {α} (f : Bytes → Res α) (b : Bytes) (m : Option Nat) (vs : List α)
     (h : listVar f b m = .ok vs) :
